@@ -115,6 +115,12 @@ META = {
         "level_text": "Generated operation histories over similar names and candidate texts compared with a reference model after every step; every system-call boundary of UpdateSpec enumerated for all pairs of valid texts.",
         "level_note": "Trusted: the reference model (~80 lines); dag.LoadYAML as the definition of 'valid'; the ptrace supervisor's call classification. Kill points are exhaustive for the listed pairs only.",
     },
+    "C07": {
+        "engine": "crashkit", "design_ref": "DESIGN.md section 3 C07",
+        "technique": "fault injection driven by property-based generation (rapid): generated histories x operation scripts x kill point k at system-call boundaries (ptrace supervisor) x synthesised torn-write prefixes; acknowledgement-based durability oracle evaluated with the real store on the surviving directory",
+        "level_text": "Fault enumeration over the system-call boundaries of the recording process for generated histories: sampled k in the quick tier, every k in the thorough tier, plus torn prefixes of the killed append.",
+        "level_note": "Trusted: the supervisor's classification of file-system calls; the recorder's ACK protocol (an op is acknowledged only after its call returned). Process-kill model, not power loss.",
+    },
 }
 
 NOT_APPLICABLE = {}
